@@ -154,7 +154,8 @@ Encode(x, f) ==
               Value |-> Arr([q \in 1..Len(nz) |-> Num(d.c[nz[q]].a)]),
               Rows |-> IntN(d.rows), Cols |-> IntN(d.cols)])
     [] x.k = "matrix" /\ f = "table" /\ x.st = "dense" ->
-         Tab([i \in 1..d.rows |-> [j \in 1..d.cols |-> Num(d.c[(i-1) * d.cols + j].a)]])
+         (* one line per row; rows without columns leave no line behind *)
+         Tab(IF d.cols = 0 THEN <<>> ELSE [i \in 1..d.rows |-> [j \in 1..d.cols |-> Num(d.c[(i-1) * d.cols + j].a)]])
     [] x.k = "matrix" /\ f = "table" /\ x.st = "sparse" ->
          LET nz == SetToSortedSeq(NZ(d.c)) IN
          Tab(<<<<IntN(d.rows), IntN(d.cols)>>>> \o
@@ -247,7 +248,10 @@ ScalarCfgs2(u) == ScalarCfgs1(u) \cup {Wrap(w, c) : w \in ScalarWrappers, c \in 
 (* vectors: the leaves, every scalar family under every scalar->vector wrapper *)
 VectorBasic(u) == {Leaf(f) : f \in VectorFamilies} \cup {Wrap(w, N1) : w \in ScalarToVector}
 VectorCfgs1(u) == VectorBasic(u) \cup {Wrap(w, c) : w \in ScalarToVector, c \in ScalarCfgs1(u)}
-VectorCfgs2(u) == VectorCfgs1(u) \cup {Wrap(w, c) : w \in VectorWrappers, c \in VectorBasic(u)}
+HmmNames == {"vector:hmm distribution", "vector:constrained hmm distribution", "vector:hierarchical hmm distribution"}
+(* an iid wrapper needs a component of fixed dimension; HMMs accept sequences of any length *)
+VectorCfgs2(u) == VectorCfgs1(u) \cup {Wrap(wc[1], wc[2]) : wc \in {wc \in VectorWrappers \X VectorBasic(u) :
+                                                                      ~(wc[1] = "vector:vector iid" /\ wc[2].f.Name.s \in HmmNames)}}
                  \cup {Wrap(w, Wrap(v, N1)) : w \in ScalarToVector, v \in ScalarWrappers}
 MatrixBasic(u) == {Leaf(f) : f \in MatrixFamilies} \cup {Wrap(w, c) : w \in VectorToMatrix, c \in VectorBasic(u)}
 MatrixCfgs(u)  == MatrixBasic(u) \cup {Wrap(w, c) : w \in MatrixWrappers,
@@ -387,7 +391,7 @@ RichContents(n) == UNION {{Content(n, Z, sq[1], sq[2]) : sq \in Specials(n, Z)} 
 Patterns(n) == {{}, {p \in Pos(n) : p % 2 = 1}, {p \in Pos(n) : p % 3 = 0}, Pos(n)}
 PlainContents(n) == {Content(n, Z, "one", -1) : Z \in Patterns(n)}
 
-Windows(n) == {<<a, b>> \in (0..n) \X (0..n) : a <= b /\ b - a < n}      \* proper sub-windows
+Windows(n) == {<<a, b>> \in (0..n) \X (0..n) : a < b /\ b - a < n} \cup {<<0, 0>>, <<n, n>>}   \* proper sub-windows, two empty ones
 Classes == {<<"plain", "none">>, <<"real", "none">>, <<"real", "var">>}
 Storages == {"dense", "sparse"}
 
